@@ -568,7 +568,7 @@ impl Check for C14 {
         }
     }
     fn rule() -> &'static str {
-        "Half of the runs (typing/functoriality): a composable pair (f,g) of small well-formed diagrams and a generated optic: forward and reverse object maps generator -> list of 0-2 labels, residual per operation label of 0-2 objects (empty, single, multiple), forward images F(A) -> F(B)●M and reverse images M●R(B) -> R(A) as single operations or composites; strict Optic<_,_,K,..> on sim/control, vec, 1-2 perturbed schedules; oracle: O(f) isomorphic to the reference substitution of *lenses* (forward and reverse image side by side, residual wires glued, R-wires bent) hence type interleave(FA,RA) -> interleave(FB,RB); O(f;g) ≅ Of;Og; O(f⊗g) ≅ Of⊗Og; adapt(O f) isomorphic to the reference re-bending, type FA●RB -> FB●RA. Other half (derivative): a random monogamous acyclic circuit over {add, mul, neg, copy, discard, const c} (0-8 operations, random wiring, edge order and numbering) with 1-3 (x, dy) vectors (0, 1, 2, 2^63, 2^64-1, random); reverse-derivative lenses as a strict Optic generic in K (all configurations) and as lax::optic::Optic::map_adapted (Vec); oracle: adapted optic monogamous, acyclic, evaluable by strict::eval::eval, result = (f(x), J_f(x)^T dy) from reference reverse accumulation over Z/2^64. Non-trivial iff the diagram has an operation (or node); distinct = distinct (workload fingerprint, device decision fingerprint)."
+        "Half of the runs (typing/functoriality): a composable pair (f,g) of small well-formed diagrams and a generated optic: forward and reverse object maps generator -> list of 0-2 labels, residual per operation label of 0-2 objects (empty, single, multiple), forward images F(A) -> F(B)●M and reverse images M●R(B) -> R(A) as single operations or composites; strict Optic<_,_,K,..> on sim/control, vec, 1-2 perturbed schedules, and the lax Optic trait (map_arrow, map_adapted) on the Vec device; oracle: O(f) isomorphic to the reference substitution of *lenses* (forward and reverse image side by side, residual wires glued, R-wires bent) hence type interleave(FA,RA) -> interleave(FB,RB); O(f;g) ≅ Of;Og; O(f⊗g) ≅ Of⊗Og; adapt(O f) isomorphic to the reference re-bending, type FA●RB -> FB●RA. Other half (derivative): a random monogamous acyclic circuit over {add, mul, neg, copy, discard, const c} (0-8 operations, random wiring, edge order and numbering) with 1-3 (x, dy) vectors (0, 1, 2, 2^63, 2^64-1, random); reverse-derivative lenses as a strict Optic generic in K (all configurations) and as lax::optic::Optic::map_adapted (Vec); oracle: adapted optic monogamous, acyclic, evaluable by strict::eval::eval, result = (f(x), J_f(x)^T dy) from reference reverse accumulation over Z/2^64. Non-trivial iff the diagram has an operation (or node); distinct = distinct (workload fingerprint, device decision fingerprint)."
     }
     fn assumptions() -> Vec<&'static str> {
         vec![
